@@ -214,6 +214,9 @@ def check_unchanged(ds, before: Model, what: str):
         raise core.Violation("C08.input-disturbed", f"{what}: the input configuration's maze count changed {before.n_mazes_cfg} -> {ds.cfg.n_mazes}")
     if now.collected != before.collected:
         raise core.Violation("C08.input-disturbed", f"{what}: the input dataset's collected metadata changed")
+    if now.metas != before.metas:
+        n = sum(1 for a, b in zip(now.metas, before.metas) if a != b)
+        raise core.Violation("C08.input-disturbed", f"{what}: the per-maze generation metadata of {n} maze(s) of a dataset that was not the target of an in-place operation changed (it shares maze objects with another dataset)", key="per-maze-metadata-disturbed-through-shared-maze-objects")
 
 
 def norm_filter(f):
@@ -253,6 +256,48 @@ def build_input(op, pool):
         # equal by value, distinct as objects (as duplicates produced by generation are)
         mazes = [SolvedMaze(connection_list=src.mazes[i].connection_list.copy(), solution=src.mazes[i].solution.copy(), generation_meta=copy.deepcopy(src.mazes[i].generation_meta)) for i in idx]
         d = MazeDataset(cfg=cfg, mazes=mazes, generation_metadata_collected=None)
+        d.update_self_config()
+        return d
+    if op[0] == "chain":
+        # graded perturbations of one maze: variant j has j*step additional connections, so neighbours in the chain are
+        # within a connection threshold of `step` while the ends are not ("within a threshold" is not transitive);
+        # solutions get pairwise different lengths so that only the connection criterion can match
+        src = pool[op[1] % len(pool)]
+        if len(src) == 0:
+            return None
+        import copy
+
+        import numpy as np
+        from maze_dataset import SolvedMaze
+
+        base = src.mazes[op[2] % len(src)]
+        conn0 = np.array(base.connection_list, dtype=np.bool_)
+        _, r, c = conn0.shape
+        closed = [(d, i, j) for d in range(2) for i in range(r) for j in range(c) if not conn0[d, i, j] and not (d == 0 and i == r - 1) and not (d == 1 and j == c - 1)]
+        n_var, step = op[3], op[4]
+        variants = []
+        sol = np.array(base.solution)
+        for j in range(n_var):
+            if j * step > len(closed) or len(sol) - j < 1:
+                break
+            conn = conn0.copy()
+            for d, a, b in closed[: j * step]:
+                conn[d, a, b] = True
+            variants.append(SolvedMaze(connection_list=conn, solution=sol[: len(sol) - j].copy(), generation_meta=copy.deepcopy(base.generation_meta)))
+        if len(variants) < 2:
+            return None
+        order = [k % len(variants) for k in op[5]] if op[5] else list(range(len(variants)))
+        seen = set()
+        mazes = []
+        for k in order + list(range(len(variants))):
+            if k not in seen:
+                seen.add(k)
+                mazes.append(variants[k])
+        # unrelated mazes from the source in between
+        for pos, idx in op[6]:
+            m = src.mazes[idx % len(src)]
+            mazes.insert(pos % (len(mazes) + 1), SolvedMaze(connection_list=m.connection_list.copy(), solution=m.solution.copy(), generation_meta=copy.deepcopy(m.generation_meta)))
+        d = MazeDataset(cfg=copy.deepcopy(src.cfg), mazes=mazes, generation_metadata_collected=None)
         d.update_self_config()
         return d
     raise KeyError(op[0])
@@ -300,7 +345,7 @@ def st_history(spec, log, stats):
     name_seq = []
     for op in spec["ops"]:
         kind = op[0]
-        if kind in ("make", "dup"):
+        if kind in ("make", "dup", "chain"):
             try:
                 d = build_input(op, pool)
             except Exception as e:  # noqa: BLE001 - generation errors are not C08's business
@@ -522,6 +567,12 @@ def gen_specs(rng: random.Random, tier: str, n: int) -> list[dict]:
         if rng.random() < 0.6:
             k = rng.randint(3, 9)
             ops.append(["dup", 0, [rng.choice([0, 0, 1, 2, 3, 5]) if rng.random() < 0.5 else rng.randrange(30) for _ in range(k)]])
+        if rng.random() < 0.3:
+            nv = rng.randint(3, 5)
+            step = rng.choice([1, 1, 2, 3])
+            ops.append(["chain", 0, rng.randrange(30), nv, step, rng.choice([[], list(range(nv))[::-1], rng.sample(range(nv), nv)]), [[rng.randrange(6), rng.randrange(30)] for _ in range(rng.choice([0, 0, 1, 2]))]])
+            # aim the duplicate filter at the chain: connection threshold = step, solution criterion off or on
+            ops.append(["filter", len([o for o in ops if o[0] in ("make", "dup", "chain")]) - 1, {"name": "remove_duplicates", "args": [step, rng.choice([None, 0, 1])], "kwargs": {}}])
         for _ in range(rng.randint(3, 9)):
             r = rng.random()
             if r < 0.88:
